@@ -5,6 +5,8 @@ META = {
     "lean_modules": ["QVerif.Props.C15"],
     "drivers": ["Encoder"],
     "theorems": [
+        "QVerif.Encoder.hamiltonian_on_n_qubits",
+        "QVerif.Encoder.energyPolyOf_supp",
         "QVerif.Encoder.prepare_ok_iff",
         "QVerif.Encoder.nqubits_formula",
         "QVerif.Encoder.hamiltonian_ok",
@@ -17,7 +19,9 @@ META = {
     ],
     "level": "proof",
     "level_text": "Proof (model Model/Encoder.lean): a limit is accepted iff no job is longer than it, else the documented error (prepare_ok_iff); qubit "
-    "count formula (nqubits_formula); a Hamiltonian exists exactly when the limit suffices and >= 1 qubit is needed (hamiltonian_ok); every bitstring "
+    "count formula (nqubits_formula); a Hamiltonian exists exactly when the limit suffices and >= 1 qubit is needed (hamiltonian_ok), and then the operator the encoder "
+    "builds (Model/EncoderPoly.lean: sums and products of I/Z strings, mirrored construction by construction) mentions only qubits below n_qubits and evaluates to the "
+    "energy on every basis state (hamiltonian_on_n_qubits, energyPolyOf_supp); every bitstring "
     "decodes (translate_total) to start times between the summed duration of the predecessors and limit - own - successors' durations "
     "(decoded_within_bounds); two full-length bitstrings decoding every variable to the same values are equal (decode_injective); every choice of one value "
     "per variable is decoded from some bitstring (decode_complete_vars) and every precedence-respecting schedule ending by the limit has all start times "
